@@ -51,6 +51,7 @@ type G struct {
 	Start, End, Step int64
 	HasTopK          bool
 	UsesStartEnd     bool
+	NoStartEnd       bool // never generate @ start() / @ end()
 }
 
 var LabelKeys = []string{"a", "b", "c"}
@@ -133,7 +134,11 @@ func (g *G) modifiers() string {
 		}
 	}
 	if g.R.Float64() < g.P.PAt {
-		switch g.R.Intn(5) {
+		k := g.R.Intn(5)
+		if g.NoStartEnd && k < 2 {
+			k += 2
+		}
+		switch k {
 		case 0:
 			s += " @ start()"
 			g.UsesStartEnd = true
